@@ -3,9 +3,9 @@ from __future__ import annotations
 from rfbgen import *  # noqa
 
 ID = "C02"
-PROOF_MODULES = ["VncProofs.C02", "VncProofs.C02Hextile", "VncProofs.C02Zrle", "VncProofs.C12", "VncProofs.C13", "VncProofs.C02All", "VncProofs.EndToEnd"]
+PROOF_MODULES = ["VncProofs.C02", "VncProofs.C02Hextile", "VncProofs.C02Zrle", "VncProofs.C12", "VncProofs.C13", "VncProofs.C02All", "VncProofs.EndToEnd", "VncProofs.Capstone"]
 THEOREMS = ["Vnc.C02_rect", "Vnc.C02_lastrect", "Vnc.C02_update", "Vnc.C02_update_lastrect", "Vnc.C02_pf_kept", "Vnc.C02_bell_after",
-            "Vnc.C02_desktop_geometry", "Vnc.C02_raw_total", "Vnc.C02_hex_tile", "Vnc.C02_hextile", "Vnc.C02_hextile_empty", "Vnc.C02_runlen", "Vnc.C02_ztile", "Vnc.C02_ztiles", "Vnc.C02_zrle", "Vnc.C12_refines", "Vnc.C13_modes", "Vnc.C02_rect_any", "Vnc.C02_update_any", "Vnc.coreAfterAnys_frame", "Vnc.E2E_update", "Vnc.E2E_session", "Vnc.step_inSession"]
+            "Vnc.C02_desktop_geometry", "Vnc.C02_raw_total", "Vnc.C02_hex_tile", "Vnc.C02_hextile", "Vnc.C02_hextile_empty", "Vnc.C02_runlen", "Vnc.C02_ztile", "Vnc.C02_ztiles", "Vnc.C02_zrle", "Vnc.C12_refines", "Vnc.C13_modes", "Vnc.C02_rect_any", "Vnc.C02_update_any", "Vnc.coreAfterAnys_frame", "Vnc.E2E_update", "Vnc.E2E_session", "Vnc.step_inSession", "Vnc.E2E_session_refines", "Vnc.paintUpdates_wf"]
 PROOF_MODULES_EXTRA = ["VncProofs.C12", "VncProofs.C13"]
 TRUSTED = [
     "Lean 4.33 kernel; standard axioms only",
